@@ -15,7 +15,22 @@ insert() { python3 - "$file" "$anchor" "$demo" <<'PY'
 import sys
 f,anchor,demo=sys.argv[1:4]
 s=open(f).read(); d=open(demo).read()
-i=len(s) if anchor=='APPEND' else s.rfind('\n',0,s.index(anchor))+1
+if anchor=='APPEND':
+    i=len(s)
+elif anchor.startswith('LINE:'):
+    # before line n (1-based)
+    n=int(anchor[5:]); i=0
+    for _ in range(n-1):
+        i=s.index('\n',i)+1
+elif anchor.startswith('LASTBRACE'):
+    # before the n-th last line consisting of a closing brace (inside the trailing `mod tests`)
+    n=int(anchor[len('LASTBRACE'):] or 1)
+    i=len(s)
+    for _ in range(n):
+        i=s.rstrip()[:i].rfind('}')
+    i=s.rfind('\n',0,i)+1
+else:
+    i=s.rfind('\n',0,s.index(anchor))+1
 open(f,'w').write(s[:i]+d+'\n'+s[i:])
 PY
 }
